@@ -2,8 +2,11 @@ package queue
 
 // C10 — one message through the REAL queue under a history of delivery attempts and restarts.
 //
-//   C10 run <hist> <hdr> <body> S=<strings> J=<i:j..|-> from=<i> to=<i.i> orc=<i:j..|-> f=<5 bits> auth=<0|1|2> late=<0|1> dsn=<0|1|2> X=<i.i|-> peer=<-|i.i/hist>
+//   C10 run <hist> <hdr> <body> S=<strings> J=<i:j..|-> from=<i> to=<i.i> orc=<i:j..|-> f=<5 bits> auth=<0|1|2> late=<0|1> dsn=<0|1|2> X=<i.i|-> peer=<-|i.i/hist> pre=<-|h,b,m>
 //
+// pre: files of the message's own names (ID.header, ID.body, ID.meta.new) that lie in the spool directory
+// already when the queue stores it (see c10Pre); the observation starts with the spool's header and body
+// file right after acceptance (`st[...]`).
 // dsn: the queue has no bounce pipeline / one that takes the failure reports / one that refuses them
 // at the body stage.  X: the strings address.SelectIDNA(<the message's SMTPUTF8 flag>, s) fails for
 // (library oracle for the model: a report that has to name such an address cannot be generated).
@@ -125,6 +128,173 @@ type c10Case struct {
 	dsn     int
 	peerTo  []int
 	peerSteps []c10Step
+	pre     c10Pre
+}
+
+// c10Pre: files of the name the NEW message's spool files will have that lie in the spool directory
+// already when the queue stores it - dangling ID.header / ID.body of a server killed between the
+// header/body writes and the rename of ID.meta (the start-up scan leaves files without ID.meta
+// alone), a leftover ID.meta.new, a message id that is used a second time.  Per file "x" (no such
+// file) or, for header and body, the signed difference between the length of the leftover and the
+// length of what is about to be stored ("+17" longer, "+0" the same length, "-3" shorter, floor 0),
+// for ID.meta.new the absolute length of the leftover.  The leftover header is a well-formed header
+// blob of "another message" (blank line included), the leftover body other text, the leftover
+// ID.meta.new a JSON document with another sender and another recipient.
+type c10Pre struct{ hdr, body, meta string }
+
+func (p c10Pre) any() bool { return p.hdr != "x" || p.body != "x" || p.meta != "x" }
+
+func (p c10Pre) String() string {
+	if !p.any() {
+		return "-"
+	}
+	return p.hdr + "," + p.body + "," + p.meta
+}
+
+func c10ParsePre(s string) (c10Pre, error) {
+	if s == "-" {
+		return c10Pre{"x", "x", "x"}, nil
+	}
+	f := strings.Split(s, ",")
+	if len(f) != 3 {
+		return c10Pre{}, fmt.Errorf("bad pre %q", s)
+	}
+	for i, x := range f {
+		if x == "x" {
+			continue
+		}
+		if i < 2 && !strings.HasPrefix(x, "+") && !strings.HasPrefix(x, "-") {
+			return c10Pre{}, fmt.Errorf("bad pre %q", s)
+		}
+		if _, err := strconv.Atoi(x); err != nil {
+			return c10Pre{}, fmt.Errorf("bad pre %q", s)
+		}
+	}
+	return c10Pre{f[0], f[1], f[2]}, nil
+}
+
+func c10FillTo(unit string, n int) []byte {
+	if n <= 0 {
+		return []byte{}
+	}
+	return []byte(strings.Repeat(unit, n/len(unit)+1)[:n])
+}
+
+// c10StaleHeader: a header blob of another message of exactly n bytes (a prefix of one when n is tiny).
+func c10StaleHeader(n int) []byte {
+	const head, tail = "Subject: stale leftover of another message\r\nX-Stale: ", "\r\n\r\n"
+	if n < len(head)+len(tail)+1 {
+		return c10FillTo("Stale: leftover\r\n\r\n", n)
+	}
+	return []byte(head + strings.Repeat("s", n-len(head)-len(tail)) + tail)
+}
+
+func c10StaleBody(n int) []byte { return c10FillTo("stale body line of another message\r\n", n) }
+
+// c10StaleMeta: a complete meta-data document (as json.Encoder writes it: one line) naming another
+// sender and another recipient, of exactly n bytes (a prefix of one when n is tiny).
+func c10StaleMeta(n int) []byte {
+	const head, tail = `{"MsgMeta":{"ID":"stale","OriginalFrom":"stale-sender@stale.example","TLSRequireOverride":true},"From":"stale-sender@stale.example","To":["`, `@stale.example"]}` + "\n"
+	if n < len(head)+len(tail)+1 {
+		return c10FillTo(head+"s"+tail, n)
+	}
+	return []byte(head + strings.Repeat("s", n-len(head)-len(tail)) + tail)
+}
+
+// plantPre puts the leftovers of the case into the spool directory (right before the queue's Body).
+func (w *c10World) plantPre(id string, p c10Pre, hdrLen, bodyLen int) {
+	rel := func(spec string, n int) (int, bool) {
+		if spec == "x" || spec == "" {
+			return 0, false
+		}
+		d, _ := strconv.Atoi(spec)
+		if n += d; n < 0 {
+			n = 0
+		}
+		return n, true
+	}
+	put := func(suffix string, data []byte, newLen int) {
+		if err := os.WriteFile(filepath.Join(w.spool, id+suffix), data, 0o600); err != nil {
+			panic(err)
+		}
+		cls := "shorter"
+		switch {
+		case len(data) == 0 && newLen != 0:
+			cls = "empty"
+		case len(data) > newLen:
+			cls = "longer"
+		case len(data) == newLen:
+			cls = "same-length"
+		}
+		if newLen >= 0 {
+			w.prePlanted = append(w.prePlanted, suffix[1:]+"."+cls)
+		}
+	}
+	if n, ok := rel(p.hdr, hdrLen); ok {
+		put(".header", c10StaleHeader(n), hdrLen)
+	}
+	if n, ok := rel(p.body, bodyLen); ok {
+		put(".body", c10StaleBody(n), bodyLen)
+	}
+	if n, ok := rel(p.meta, 0); ok {
+		put(".meta.new", c10StaleMeta(n), -1)
+		w.preMetaLen = n
+	}
+}
+
+// c10Stored: the spool files of the message right after the queue has accepted it (Body returned).
+type c10Stored struct {
+	names            string
+	hdrOK, bodyOK    bool // the file could be read
+	hdrLen, bodyLen  int
+	hdrDig, bodyDig  uint32
+	hdrEq, bodyEq    bool
+	metaLen          int
+	metaErr          string // ID.meta is not exactly one JSON document
+}
+
+// c10StrictMeta: the whole file is one JSON value (plus white space) - encoding/json's Decoder, which
+// the queue reads it with, stops after the first value and does not look at what follows.
+func c10StrictMeta(blob []byte) string {
+	var v map[string]interface{}
+	if err := json.Unmarshal(blob, &v); err != nil {
+		return err.Error()
+	}
+	return ""
+}
+
+func (w *c10World) captureStored(id string, hdr, body []byte) {
+	st := &c10Stored{}
+	ents, _ := os.ReadDir(w.spool)
+	var names []string
+	for _, e := range ents {
+		n := e.Name()
+		if strings.HasPrefix(n, id) {
+			n = "ID" + n[len(id):]
+		}
+		names = append(names, n)
+	}
+	sort.Strings(names)
+	st.names = strings.Join(names, ",")
+	if b, err := os.ReadFile(filepath.Join(w.spool, id+".header")); err == nil {
+		st.hdrOK, st.hdrLen, st.hdrDig, st.hdrEq = true, len(b), c10Digest(b), bytes.Equal(b, hdr)
+	}
+	if b, err := os.ReadFile(filepath.Join(w.spool, id+".body")); err == nil {
+		st.bodyOK, st.bodyLen, st.bodyDig, st.bodyEq = true, len(b), c10Digest(b), bytes.Equal(b, body)
+	}
+	if b, err := os.ReadFile(filepath.Join(w.spool, id+".meta")); err == nil {
+		st.metaLen, st.metaErr = len(b), c10StrictMeta(b)
+	} else {
+		st.metaErr = "cannot be read"
+	}
+	w.stored = st
+}
+
+func (st *c10Stored) obs() string {
+	if st == nil || !st.hdrOK || !st.bodyOK {
+		return "st[?]"
+	}
+	return fmt.Sprintf("st[hdr=%d.%d body=%d.%d]", st.hdrLen, st.hdrDig, st.bodyLen, st.bodyDig)
 }
 
 func c10GenBody(kind, n int, seed uint64) []byte {
@@ -196,7 +366,10 @@ func c10ParseCase(op string) (*c10Case, error) {
 	if len(t) == 13 { // op lines recorded before the bounce pipeline / second queue were added
 		t = append(t, "dsn=0", "X=-", "peer=-")
 	}
-	if len(t) != 16 || t[0] != "C10" || t[1] != "run" {
+	if len(t) == 16 { // ... before leftover files of the same name were added
+		t = append(t, "pre=-")
+	}
+	if len(t) != 17 || t[0] != "C10" || t[1] != "run" {
 		return nil, fmt.Errorf("bad run op (%d tokens)", len(t))
 	}
 	c := &c10Case{op: op}
@@ -307,6 +480,12 @@ func c10ParseCase(op string) (*c10Case, error) {
 		if len(c.peerTo) == 0 {
 			return nil, fmt.Errorf("peer without recipients")
 		}
+	}
+	if s, err = kv(16, "pre"); err != nil {
+		return nil, err
+	}
+	if c.pre, err = c10ParsePre(s); err != nil {
+		return nil, err
 	}
 	for _, i := range append(append([]int{c.from}, c.to...), c.peerTo...) {
 		if i < 0 || i >= len(c.strs) {
@@ -754,6 +933,9 @@ type c10World struct {
 	afterFirst func() // called once when the first run of attempts is over (or at the end of the history)
 	planted  []string // leftover ID.meta.new files put beside the intact ID.meta before a restart: "class:cut/len"
 	notPlanted int    // restarts with a leftover in the history at which there was no ID.meta any more
+	prePlanted []string // files of the message's own names put into the spool before it was stored: "header.longer", ...
+	preMetaLen int
+	stored   *c10Stored // the message's spool files right after acceptance
 }
 
 // hasMeta: a live spool entry (a file *.meta) exists.
@@ -1099,7 +1281,7 @@ func (w *c10World) observation(strs []string, id string) (string, string) {
 	w.tgt.mu.Lock()
 	seen := w.tgt.seen
 	w.tgt.mu.Unlock()
-	var obs []string
+	obs := []string{w.stored.obs()}
 	for _, s := range seen {
 		cont := "hdr=- body=-"
 		if s.gotBody {
@@ -1281,6 +1463,7 @@ func (w *c10World) monitor(out *vh.Out, op string, acc *c10Accepted, strictEnv b
 			viol("C10/body-len-mismatch", fmt.Sprintf("%sBuffer.Len() = %d but %d bytes can be read", at, s.lenMethod, s.bodyLen))
 		}
 	}
+	w.monitorStored(out, op, acc, strictEnv)
 	w.monitorPending(out, op, acc, strictEnv, seen, eqL)
 	if acc.wf && len(w.events) > 0 {
 		viol("C10/spool-unreadable", "the queue could not re-read a message it accepted (well-formed header)")
@@ -1407,11 +1590,45 @@ func (w *c10World) monitorPending(out *vh.Out, op string, acc *c10Accepted, stri
 			viol("C10/sender-changed", fmt.Sprintf("at rest %s: the spool has sender %q, accepted %q", after, m.From, acc.from))
 		}
 	}
+	if blob, err := os.ReadFile(filepath.Join(w.spool, acc.id+".meta")); err == nil {
+		if e := c10StrictMeta(blob); e != "" {
+			viol("C10/spool-content-changed", fmt.Sprintf("at rest %s: ID.meta (%d bytes) is not the one JSON document the queue wrote: %s", after, len(blob), e))
+		}
+	}
 	if !bytes.Equal(hdrFile, acc.hdr) {
 		viol("C10/spool-content-changed", fmt.Sprintf("at rest %s: header file %d bytes digest %d, accepted %d bytes digest %d", after, len(hdrFile), c10Digest(hdrFile), len(acc.hdr), c10Digest(acc.hdr)))
 	}
 	if !bytes.Equal(bodyFile, acc.body) {
 		viol("C10/spool-content-changed", fmt.Sprintf("at rest %s: body file %d bytes digest %d, accepted %d bytes digest %d", after, len(bodyFile), c10Digest(bodyFile), len(acc.body), c10Digest(acc.body)))
+	}
+}
+
+// monitorStored: what the spool holds for the message right after the queue accepted it (Body returned,
+// nothing dispatched yet) is what it accepted - whatever files of the same names were lying in the
+// spool directory before: the header file byte for byte what textproto.WriteHeader makes of the
+// accepted header, the body file the accepted body, ID.meta one JSON document and nothing else.
+func (w *c10World) monitorStored(out *vh.Out, op string, acc *c10Accepted, strictEnv bool) {
+	st := w.stored
+	if st == nil || !acc.wf || (!acc.envUTF8 && !strictEnv) {
+		return
+	}
+	viol := func(sig, detail string) { out.Violation(sig, op, w.tag+detail) }
+	before := ""
+	if len(w.prePlanted) > 0 {
+		before = " (in the spool directory before: " + strings.Join(w.prePlanted, ", ") + ")"
+	}
+	if !st.hdrOK || !st.bodyOK {
+		viol("C10/spool-content-changed", fmt.Sprintf("right after acceptance the spool has no readable header / body file: %s%s", st.names, before))
+		return
+	}
+	if !st.hdrEq {
+		viol("C10/spool-content-changed", fmt.Sprintf("right after acceptance: header file %d bytes digest %d, accepted %d bytes digest %d%s", st.hdrLen, st.hdrDig, len(acc.hdr), c10Digest(acc.hdr), before))
+	}
+	if !st.bodyEq {
+		viol("C10/spool-content-changed", fmt.Sprintf("right after acceptance: body file %d bytes digest %d, accepted %d bytes digest %d%s", st.bodyLen, st.bodyDig, len(acc.body), c10Digest(acc.body), before))
+	}
+	if st.metaErr != "" {
+		viol("C10/spool-content-changed", fmt.Sprintf("right after acceptance: ID.meta (%d bytes) is not the one JSON document the queue wrote: %s%s", st.metaLen, st.metaErr, before))
 	}
 }
 
@@ -1562,6 +1779,45 @@ func (w *c10World) stats(out *vh.Out, pfx string, steps []c10Step, acc *c10Accep
 	}
 	if w.notPlanted > 0 {
 		out.Stat(pfx + ".leftover-meta-new.no-entry-left")
+	}
+	for _, p := range w.prePlanted {
+		out.Stat(pfx + ".leftover-before-acceptance." + p)
+	}
+	if w.preMetaLen > 0 || len(w.prePlanted) > 0 {
+		if w.stored != nil && w.preMetaLen > 0 {
+			switch {
+			case w.preMetaLen > w.stored.metaLen:
+				out.Stat(pfx + ".leftover-before-acceptance.meta-new.longer")
+			case w.preMetaLen == w.stored.metaLen:
+				out.Stat(pfx + ".leftover-before-acceptance.meta-new.same-length")
+			default:
+				out.Stat(pfx + ".leftover-before-acceptance.meta-new.shorter")
+			}
+		}
+		src := map[bool]string{false: "from-memory", true: "from-the-spool"}
+		for k, s := range seen {
+			if s.gotBody {
+				out.Stat(pfx + ".leftover-before-acceptance.attempt-with-content." + src[k > 0 || (len(steps) > 0 && steps[0].restart)])
+			}
+		}
+	}
+	for _, f := range acc.fields {
+		if k := bytes.IndexByte(f, ':'); k > 0 && strings.EqualFold(strings.TrimSpace(string(f[:k])), "TLS-Required") {
+			v := strings.ToLower(strings.Join(strings.Fields(string(f[k+1:])), " "))
+			cls := "other-value"
+			if v == "no" {
+				cls = "no"
+			}
+			fromSpool := 0
+			for k, s := range seen {
+				if k > 0 || (len(steps) > 0 && steps[0].restart) {
+					_ = s
+					fromSpool++
+				}
+			}
+			out.Stat(fmt.Sprintf("%s.header-with-tls-required.%s.override-%s.requiretls-%s.attempts-from-the-spool-%s", pfx, cls, c10Bit(acc.tro), c10Bit(acc.rtls), c10Bit(fromSpool > 0)))
+			break
+		}
 	}
 }
 
@@ -1794,12 +2050,19 @@ func c10Run(out *vh.Out, op string) {
 	} else {
 		bodyBuf = buffer.MemoryBuffer{Slice: append([]byte(nil), body...)}
 	}
+	if c.pre.any() {
+		w.plantPre(id, c.pre, len(acc.hdr), len(body))
+		if peer {
+			wB.plantPre(id, c.pre, len(acc.hdr), len(body))
+		}
+	}
 	if err := d.Body(ctx, hdr, bodyBuf); err != nil {
 		out.Corr(op, "body-rejected")
 		out.Note("queue refused the body: " + err.Error())
 		closeAll()
 		return
 	}
+	w.captureStored(id, acc.hdr, body)
 	w.scan("after Body")
 	if peer {
 		// the SAME header value and body buffer go to the second target (msgpipeline: one Body call per target)
@@ -1810,6 +2073,7 @@ func c10Run(out *vh.Out, op string) {
 			closeAll()
 			return
 		}
+		wB.captureStored(id, acc.hdr, body)
 		wB.scan("after Body")
 	}
 	// commit: ok=false - a stopping queue refused Commit
@@ -2354,6 +2618,8 @@ var c10TouchyFields = []string{
 	"To: undisclosed-recipients:;\r\n",
 	"Auto-Submitted: no\r\n",
 	"X-Empty:\r\n",
+	"TLS-Required: No\r\n",
+	"tls-required:\r\n no\r\n",
 }
 
 // bounce-grid histories: one line per step, letters for (the recipient that is given up first F, the
@@ -2654,6 +2920,191 @@ func c10GenCrash(r *vh.Rng, k int) string {
 
 const c10CrashGrid = 6*4 + 6*10
 
+// ---- header fields that speak about the envelope; leftover files of the message's own names ----
+
+// The TLS-Required field (RFC 8689) in the spellings a header can carry it in: what the queue hands over
+// as the TLS-Required OVERRIDE is the flag it accepted with the metadata, whatever the header says (the
+// endpoint looks at the header once, before the queue; other sources set or do not set the flag on
+// their own).  One entry = the raw fields put into the header, in order.
+var c10TLSRequired = [][]string{
+	{"TLS-Required: No\r\n"},
+	{"tls-required: no\r\n"},
+	{"TLS-REQUIRED: NO\r\n"},
+	{"TLS-Required:No\r\n"},
+	{"TLS-Required:\r\n No\r\n"},
+	{"TLS-Required: \tNo \t\r\n"},
+	{"TLS-Required : No\r\n"},
+	{"Tls-Required:\r\n\t\r\n nO\r\n"},
+	{"TLS-Required: No\r\n", "TLS-Required: No\r\n"},
+	{"TLS-Required: Yes\r\n", "TLS-Required: No\r\n"},
+	{"TLS-Required: No\r\n", "TLS-Required: Yes\r\n"},
+	{"TLS-Required: Yes\r\n"},
+	{"TLS-Required: No (RFC 8689)\r\n"},
+	{"TLS-Required: N\r\n o\r\n"},
+	{"TLS-Required:\r\n"},
+	{"TLS-Required: \"No\"\r\n"},
+	{"X-TLS-Required: No\r\n"},
+	{"TLS-Required: None\r\n"},
+}
+
+// other fields a spool reader could be tempted to "restore" envelope data from
+var c10EnvelopeFields = []string{
+	"Return-Path: <someone-else@elsewhere.example>\r\n",
+	"Return-Path: <>\r\n",
+	"Delivered-To: someone-else@elsewhere.example\r\n",
+	"X-Original-To: alias@elsewhere.example\r\n",
+	"Original-Recipient: rfc822;alias@elsewhere.example\r\n",
+	"X-Envelope-From: <someone-else@elsewhere.example>\r\n",
+	"X-Envelope-To: <alias@elsewhere.example>\r\n",
+	"Require-Recipient-Valid-Since: alias@elsewhere.example; Sat, 1 Jun 2013 09:23:01 -0700\r\n",
+	"Content-Transfer-Encoding: 8bit\r\n",
+	"Content-Type: text/plain; charset=utf-8\r\n",
+	"X-Maddy-Sender: someone-else@elsewhere.example\r\n",
+}
+
+// c10GenEnvelopeFields: mostly a TLS-Required entry, sometimes with / instead one of the other fields.
+func c10GenEnvelopeFields(r *vh.Rng) [][]byte {
+	var out [][]byte
+	if r.Chance(80) {
+		for _, f := range c10TLSRequired[r.Intn(len(c10TLSRequired))] {
+			out = append(out, []byte(f))
+		}
+	}
+	if len(out) == 0 || r.Chance(30) {
+		out = append(out, []byte(c10EnvelopeFields[r.Intn(len(c10EnvelopeFields))]))
+	}
+	return out
+}
+
+// c10InsertFields puts raw fields into the header token of a `C10 run` op line: as a block at the top,
+// in the middle or at the bottom, or spread.
+func c10InsertFields(r *vh.Rng, hdrTok string, add [][]byte) string {
+	var fs []string
+	if hdrTok != "-" {
+		fs = strings.Split(hdrTok, ",")
+	}
+	pos := []int{0, len(fs) / 2, len(fs)}[r.Intn(3)]
+	spread := r.Chance(25)
+	for _, f := range add {
+		if spread {
+			pos = r.Intn(len(fs) + 1)
+		}
+		fs = append(fs[:pos], append([]string{"r:" + vh.HexBytes(f)}, fs[pos:]...)...)
+		pos++
+	}
+	return strings.Join(fs, ",")
+}
+
+var c10PreDeltas = []string{"+1", "+2", "+17", "+300", "+4096", "+70000", "+0", "-1", "-5", "-300", "-100000000"}
+
+func c10GenPreSpec(r *vh.Rng) c10Pre {
+	p := c10Pre{"x", "x", "x"}
+	for !p.any() {
+		if r.Chance(60) {
+			p.hdr = c10PreDeltas[r.Intn(len(c10PreDeltas))]
+		}
+		if r.Chance(75) {
+			p.body = c10PreDeltas[r.Intn(len(c10PreDeltas))]
+		}
+		if r.Chance(40) {
+			p.meta = []string{"0", "1", "150", "700", "3000", "100000"}[r.Intn(6)]
+		}
+	}
+	return p
+}
+
+// c10DecorateRun: hdrPct % of the cases get header fields that speak about the envelope (whatever the
+// flags of the case say), prePct % leftover files of the message's own names in the spool.
+func c10DecorateRun(r *vh.Rng, op string, hdrPct, prePct int) string {
+	t := strings.Fields(op)
+	if len(t) != 16 {
+		return op
+	}
+	if r.Chance(hdrPct) {
+		t[3] = c10InsertFields(r, t[3], c10GenEnvelopeFields(r))
+	}
+	pre := "-"
+	if r.Chance(prePct) {
+		pre = c10GenPreSpec(r).String()
+	}
+	return strings.Join(t, " ") + " pre=" + pre
+}
+
+func c10NRcpt(t []string) int {
+	for _, tok := range t {
+		if strings.HasPrefix(tok, "to=") {
+			return strings.Count(tok, ".") + 1
+		}
+	}
+	return 1
+}
+
+// override grid: every TLS-Required spelling x (accepted override, REQUIRETLS) in all four combinations x
+// histories with attempts read back from the spool (in-process retry, after a restart, the first attempt
+// after `R`, an atomic target) - message otherwise generated like the random cases
+var c10TroShapes = [][]string{
+	{"P:tt", "P:oo"},
+	{"P:to", "r", "P:oo"},
+	{"R", "P:to", "P:oo"},
+	{"A:tt", "r", "r", "A:tt", "P:oo"},
+	{"P:tq", "P:tt", "r", "P:to", "r"},
+}
+
+func c10GenTro(r *vh.Rng, k int) string {
+	t := strings.Fields(c10GenRun(r, false, -1))
+	n := c10NRcpt(t)
+	sp := k % len(c10TLSRequired)
+	combo := (k / len(c10TLSRequired)) % 4
+	t[2] = c10ExpandShape(c10TroShapes[(k+combo)%len(c10TroShapes)], "", n)
+	var add [][]byte
+	for _, f := range c10TLSRequired[sp] {
+		add = append(add, []byte(f))
+	}
+	t[3] = c10InsertFields(r, t[3], add)
+	for i, tok := range t {
+		if strings.HasPrefix(tok, "f=") && len(tok) == 7 {
+			t[i] = "f=" + tok[2:3] + c10Bit(combo&1 != 0) + c10Bit(combo&2 != 0) + tok[5:]
+		}
+		if strings.HasPrefix(tok, "peer=") && k%3 != 0 {
+			t[i] = "peer=-"
+		}
+	}
+	return strings.Join(t, " ")
+}
+
+// leftover grid: files ID.header / ID.body / ID.meta.new lying in the spool when the message with that
+// ID is stored x what is read back when: the first attempt (FileBuffer over the spool's body file),
+// in-process retry, after a restart, first attempt after `R` / after a crash before Commit, at rest
+var c10PreShapes = [][]string{
+	{"P:oo"},
+	{"A:oo"},
+	{"P:tt", "P:oo"},
+	{"P:tt", "r", "P:oo"},
+	{"R", "P:to", "P:oo"},
+	{"A:tt", "r"},
+	{"r", "P:oo"},
+	{"P:tq", "rn8", "A:tt", "P:oo"},
+}
+
+var c10PreCombos = []c10Pre{
+	{"+17", "+1", "x"}, {"x", "+4096", "x"}, {"+0", "+0", "x"}, {"-1", "-1", "x"}, {"-100000000", "-100000000", "0"},
+	{"+5000", "x", "100000"}, {"x", "+70000", "5"}, {"x", "x", "100000"}, {"+1", "+2", "3000"}, {"x", "-300", "700"},
+}
+
+const c10PreGrid = 8 * 10
+
+func c10GenPreGrid(r *vh.Rng, k int) string {
+	t := strings.Fields(c10GenRun(r, false, -1))
+	n := c10NRcpt(t)
+	t[2] = c10ExpandShape(c10PreShapes[k%len(c10PreShapes)], "", n)
+	for i, tok := range t {
+		if strings.HasPrefix(tok, "peer=") && k%4 != 1 {
+			t[i] = "peer=-"
+		}
+	}
+	return strings.Join(t, " ") + " pre=" + c10PreCombos[(k/len(c10PreShapes))%len(c10PreCombos)].String()
+}
+
 // c10JSONRoundTrip: what encoding/json makes of a string (the model's parameter `co`).
 func c10JSONRoundTrip(s string) string {
 	b, err := json.Marshal(s)
@@ -2764,10 +3215,12 @@ func TestVerifC10Run(t *testing.T) {
 		}()
 	}
 	rd := vh.NewRng(vh.Seed() + 2014)
+	rp := vh.NewRng(vh.Seed() + 2015)
 	for i := 0; i < n; i++ {
 		op := c10GenRun(r, i < nbig, -1)
 		if i >= nbig {
 			op = c10DecorateOp(rd, op, 10, 25)
+			op = c10DecorateRun(rp, op, 30, 20)
 		}
 		jobs <- op
 	}
@@ -2800,6 +3253,19 @@ func TestVerifC10Run(t *testing.T) {
 	for k := 0; k < ncrash; k++ {
 		jobs <- c10GenCrash(rc, k%c10CrashGrid)
 	}
+	// override grid and leftover grid (see c10GenTro, c10GenPreGrid)
+	ntro, npre := 4*len(c10TLSRequired), c10PreGrid
+	if vh.Thorough() {
+		ntro, npre = ntro*4, npre*4
+	}
+	rt := vh.NewRng(vh.Seed() + 2016)
+	for k := 0; k < ntro; k++ {
+		jobs <- c10GenTro(rt, k)
+	}
+	rg := vh.NewRng(vh.Seed() + 2017)
+	for k := 0; k < npre; k++ {
+		jobs <- c10GenPreGrid(rg, k)
+	}
 	// fixed cases (whatever the seed): a message with an EMPTY body / with a header without a single
 	// field, restarted before its first attempt resp. before its second one
 	ha, hb := vh.HexBytes([]byte("a@example.org")), vh.HexBytes([]byte("b@example.org"))
@@ -2830,6 +3296,18 @@ func TestVerifC10Run(t *testing.T) {
 	jobs <- c10OpLine(fstrs(), "aPto.rn3.aPoo", bhdr, small, 1, []int{2, 3}, "-", "00000", 2, "0", 1, "-")
 	jobs <- c10OpLine(fstrs(), "aPot.rn4.r.aAtt.rn6.aPoo", bhdr, small, 1, []int{2, 3}, "2:6", "01100", 1, "1", 1, "-")
 	jobs <- c10OpLine(fstrs(), "Rn1.aPto.rn9.aPpo", bhdr, small, 1, []int{5, 3}, "-", "10000", 0, "0", 1, "-")
+	// ... a TLS-Required: No field in the header of a message accepted WITHOUT the override (with and without
+	// REQUIRETLS) and a retry / a restart; leftover files of the message's own names, longer / as long as /
+	// shorter than what is stored
+	thdr := strings.Join([]string{hf("From: s@example.com\r\n"), hf("TLS-Required: No\r\n"), hf("Subject: x\r\n")}, ",")
+	jobs <- c10OpLine(fstrs(), "aPtt.aPoo", thdr, small, 1, []int{2, 3}, "-", "00000", 0, "0", 1, "-")
+	jobs <- c10OpLine(fstrs(), "aPto.r.aPoo", thdr, small, 1, []int{2, 3}, "-", "01000", 2, "1", 1, "-")
+	jobs <- c10OpLine(fstrs(), "R.aAtt.aPoo", strings.Join([]string{hf("tls-required:\r\n NO\r\n"), hf("Subject: x\r\n")}, ","), small, 1, []int{2, 3}, "-", "10000", 0, "0", 1, "4/aPt.aPo")
+	jobs <- c10OpLine(fstrs(), "aPoo", bhdr, small, 1, []int{2, 3}, "-", "00000", 0, "0", 1, "-") + " pre=+17,+9,x"
+	jobs <- c10OpLine(fstrs(), "aPtt.r.aPoo", bhdr, small, 1, []int{2, 3}, "-", "00000", 2, "0", 1, "-") + " pre=x,+1,x"
+	jobs <- c10OpLine(fstrs(), "aAtt.r", bhdr, small, 1, []int{2, 3}, "-", "00000", 0, "0", 1, "-") + " pre=+5,x,100000"
+	jobs <- c10OpLine(fstrs(), "aPtt.aPto.r.aPoo", bhdr, small, 1, []int{2, 3}, "-", "00000", 0, "0", 1, "4/aPt.aPo") + " pre=+0,+0,3000"
+	jobs <- c10OpLine(fstrs(), "R.aPoo", bhdr, small, 1, []int{2, 3}, "-", "00000", 0, "0", 1, "-") + " pre=-3,-3,0"
 	close(jobs)
 	wg.Wait()
 	_ = errors.New
